@@ -13,4 +13,4 @@ META = dict(
 
 
 def run(c):
-    return _harbor.run(c, ['okBids', 'closingBids', 'priceChecks', 'auctionBlocks'])
+    return _harbor.run(c, ['okBids', 'closingBids', 'priceChecks', 'auctionBlocks', 'externalAuctions', 'externalCloses', 'bonusBids'])
